@@ -560,6 +560,10 @@ static vnaproperty_t **list_subtree(vnaproperty_t *list,
 	    errno = ENOENT;
 	    return NULL;
 	}
+	if (index == INT_MAX) {		/* index + 1 must fit an int */
+	    errno = EINVAL;
+	    return NULL;
+	}
 	if (list_check_allocation(vplp, index + 1) == -1) {
 	    return NULL;
 	}
